@@ -51,7 +51,7 @@ inductive Inst
   | fail (why : String)
 
 def memOfTy (t : MemTyM) : Mem :=
-  ⟨t.min, t.max, (match t.pageLog2 with | some l => 2 ^ l | none => 65536), t.mem64, []⟩
+  ⟨t.min, t.max, (match t.pageLog2 with | some l => 2 ^ l | none => 65536), t.mem64, {}⟩
 
 def tabOfTy (t : TableTyM) : Tab :=
   ⟨List.replicate t.min (if t.elem = "externref" then .xref none else .fref none), t.max, t.table64, t.elem = "externref"⟩
@@ -77,7 +77,7 @@ def instantiate (m : ModuleM) (inv : CallFn) : Inst :=
     match m.elems.mapM (elemItems globals) with
     | none => .fail "unsupported element expression"
     | some items =>
-      let st0 : Store := ⟨globals, mems, tabs, m.datas.map (fun d => hexBytes d.bytes.toList), items, []⟩
+      let st0 : Store := ⟨globals, mems, tabs, m.datas.map (fun d => hexBytes d.bytes.toList), items, [], 0⟩
       -- active element segments, in order
       let stE := (m.elems.zipIdx).foldl (fun (acc : Except String Store) p =>
         match acc with
@@ -136,9 +136,11 @@ def argFor (seed : Nat) (ty : String) : V :=
 def sigText (s : Sig) : String := join "," s.1 ++ "->" ++ join "," s.2
 
 def showMem (m : Mem) : String :=
-  let addrs := (m.bytes.map (·.1)).eraseDups.mergeSort
-  let cells := addrs.filterMap fun a => let v := m.read1 a; if v = 0 then none else some s!"{a}={v}"
-  s!"pages={m.pages} " ++ join "," cells
+  let sorted := (m.bytes.toList.filter (·.2 ≠ 0)).mergeSort (fun a b => a.1 ≤ b.1)
+  -- every non-zero byte enters the digest; the first 24 are also shown
+  let digest := sorted.foldl (fun h p => mix (mix h p.1) p.2) 17
+  let cells := (sorted.take 24).map fun p => s!"{p.1}={p.2}"
+  s!"pages={m.pages} nonzero={sorted.length} digest={digest} " ++ join "," cells
 
 def showTabEntry (FS : List Sig) : V → String
   | .fref (some f) => match FS[f]? with | some sg => "func(" ++ sigText sg ++ ")" | none => "dangling"
